@@ -7,7 +7,7 @@ Import ListNotations.
 From BT.Base Require Import Bits BitsProofs BytesProofs.
 From BT.Layout Require Import Model BuildProofs RoundTrip RecordProofs PosProofs.
 From BT.Tracer Require Import Model Decode RecordDecode Lemmas Spec BoundsProofs OutcomeProofs Chain Holes History
-  HistoryOpen HistoryClose HistoryRecord HistoryStep ErrMono.
+  HistoryOpen HistoryClose HistoryRecord HistoryStep HistoryBounds ErrMono.
 
 (* the event records the reader finds in the packets handed over, in order; None if it rejects one *)
 Fixpoint read_all (d : dstm) (ps : list (nat * list Z)) : option (list rcd) :=
@@ -115,6 +115,77 @@ Section M.
     split; [exact H6|]. unfold obs in T1, T2. rewrite !stamps_of_obs in * by lia.
     split; intros Hh; [rewrite (T1 Hh), app_nil_r|rewrite (T2 Hh)]; reflexivity.
   Qed.
+
+  (* ---------------------------------------------------------------- weaker premise *)
+  (* `inb_run` (position inside the packet at call boundaries) follows from `offb_run`: the content
+     offset of every open packet is inside its buffer at call boundaries, i.e. every buffer holds the
+     packet header and context - the precondition of C02 (Tracer/HistoryBounds.v, after the repairs
+     of S9 / S18 in /repo) *)
+  Lemma inb_from_offb buf oracle h :
+    fits cs_size (8 * buf) -> or_ok cs_size oracle -> Forall (call_ok d) h ->
+    let w0 := mk_w (init_ctx buf) oracle 0%Z [] false user in
+    let w1 := step d w0 COpen in
+    c_open (w_c w1) = true -> offb w1 -> offb_run d w1 h ->
+    w_err (run d buf user oracle (COpen :: h)) = false ->
+    inb_run d w1 h.
+  Proof.
+    intros Hf Ho Hc w0 w1 Hop Hb1 Hb He.
+    assert (Ew : run d buf user oracle (COpen :: h) = fold_left (step d) h w1) by reflexivity.
+    rewrite Ew in He.
+    assert (E1 : w_err w1 = false).
+    { destruct (w_err w1) eqn:X; [|reflexivity]. rewrite (fold_sticky d h w1 X) in He. discriminate. }
+    assert (S1 : w1 = if w_err (open_cb d w0) then open_cb d w0
+                      else logev (open_cb d w0) (ERet (w_c (open_cb d w0)))) by reflexivity.
+    destruct (w_err (open_cb d w0)) eqn:X; [rewrite S1 in E1; congruence|].
+    assert (J1 : J d user cs_size [] w1).
+    { rewrite S1 in Hop |- *. apply J_ret.
+      apply (first_open_J d user cs_size WF w0 (init_HIb d user cs_size buf oracle Hf Ho)); auto.
+      split; intros _; reflexivity. }
+    assert (I1 : inb w1).
+    { rewrite S1 in Hb1 |- *. apply inb_ret.
+      eapply R_inb; [apply R_open_cb| |apply offb_ret; exact Hb1].
+      unfold inb, w0. cbn. discriminate. }
+    exact (inb_run_of_offb d user cs_size WF h w1 [] J1 Hc I1 He Hb).
+  Qed.
+
+  Theorem history_records_offb buf oracle h :
+    fits cs_size (8 * buf) -> or_ok cs_size oracle -> Forall (call_ok d) h ->
+    let w0 := mk_w (init_ctx buf) oracle 0%Z [] false user in
+    let w1 := step d w0 COpen in
+    c_open (w_c w1) = true -> offb w1 -> offb_run d w1 h ->
+    let w := run d buf user oracle (COpen :: h) in
+    w_err w = false -> c_open (w_c w) = false ->
+    exists ds, outs d w1 h ds /\ read_all d (pkts (obs (w_log w))) = Some (List.concat ds).
+  Proof.
+    intros Hf Ho Hc w0 w1 Hop Hb1 Hb w He Hcl.
+    exact (history_records buf oracle h Hf Ho Hc Hop (inb_from_offb buf oracle h Hf Ho Hc Hop Hb1 Hb He) He Hcl).
+  Qed.
+
+  Theorem history_packets_offb buf oracle h :
+    fits cs_size (8 * buf) -> or_ok cs_size oracle -> Forall (call_ok d) h ->
+    let w0 := mk_w (init_ctx buf) oracle 0%Z [] false user in
+    let w1 := step d w0 COpen in
+    c_open (w_c w1) = true -> offb w1 -> offb_run d w1 h ->
+    let w := run d buf user oracle (COpen :: h) in
+    w_err w = false ->
+    exists K, Forall2 (pkt_ok d user) (pkts (obs (w_log w))) K /\
+              map k_disc K = snaps 0 (obs (w_log w)) /\
+              map k_seq K = map (seqn d) (seq 0 (List.length K)).
+  Proof.
+    intros Hf Ho Hc w0 w1 Hop Hb1 Hb w He.
+    exact (history_packets buf oracle h Hf Ho Hc Hop (inb_from_offb buf oracle h Hf Ho Hc Hop Hb1 Hb He) He).
+  Qed.
+
+  (* C02 over whole histories: under the same premises the write position is inside the packet at
+     every call boundary *)
+  Theorem history_in_bounds buf oracle h :
+    fits cs_size (8 * buf) -> or_ok cs_size oracle -> Forall (call_ok d) h ->
+    let w0 := mk_w (init_ctx buf) oracle 0%Z [] false user in
+    let w1 := step d w0 COpen in
+    c_open (w_c w1) = true -> offb w1 -> offb_run d w1 h ->
+    w_err (run d buf user oracle (COpen :: h)) = false ->
+    inb_run d w1 h.
+  Proof. exact (inb_from_offb buf oracle h). Qed.
 End M.
 
 (* boolean form of the in-bounds premise, for concrete histories *)
@@ -126,4 +197,15 @@ Proof.
   induction h as [|k h IH]; intros w H; cbn [inb_runb inb_run] in *; [exact I|].
   apply andb_true_iff in H. destruct H as [A B]. split; [|apply IH; exact B].
   unfold inbb, inb in *. intros Ho. rewrite Ho in A. cbn in A. apply Nat.leb_le. exact A.
+Qed.
+
+Definition offbb (w : world) : bool := implb (c_open (w_c w)) (c_off_content (w_c w) <=? c_psize (w_c w)).
+Fixpoint offb_runb (d : dstm) (w : world) (h : list call) : bool :=
+  match h with [] => true | k :: h => offbb (step d w k) && offb_runb d (step d w k) h end.
+Lemma offbb_ok w : offbb w = true -> offb w.
+Proof. unfold offbb, offb. intros A Ho. rewrite Ho in A. cbn in A. apply Nat.leb_le. exact A. Qed.
+Lemma offb_runb_ok d h : forall w, offb_runb d w h = true -> offb_run d w h.
+Proof.
+  induction h as [|k h IH]; intros w H; cbn [offb_runb offb_run] in *; [exact I|].
+  apply andb_true_iff in H. destruct H as [A B]. split; [apply offbb_ok; exact A|apply IH; exact B].
 Qed.
